@@ -38,6 +38,10 @@ type Case struct {
 	Data     json.RawMessage `json:"data"`
 	Doc      *calcproto.Doc  `json:"doc,omitempty"`
 	CR       *CRSpec         `json:"customer_rates,omitempty"`
+	// History: inputs calculated by the same process before this one (history.go)
+	History []json.RawMessage `json:"history,omitempty"`
+	// Dirty: how Data was derived from an example (dirty.go)
+	Dirty *DirtySpec `json:"dirty,omitempty"`
 }
 
 func exampleFiles(repo string) []string {
@@ -151,6 +155,9 @@ func customerRatesWithAddon(data []byte) bool {
 		Tags     []string `json:"$tags"`
 		Addons   []string `json:"$addons"`
 		Regime   string   `json:"$regime"`
+		Tax      *struct {
+			Tags []string `json:"tags"` // the earlier place of the tags, still read and moved to $tags
+		} `json:"tax"`
 		Supplier *struct {
 			TaxID *struct {
 				Country string `json:"country"`
@@ -165,12 +172,18 @@ func customerRatesWithAddon(data []byte) bool {
 		return false
 	}
 	tags, addons := d.Tags, d.Addons
+	if d.Tax != nil {
+		tags = append(tags, d.Tax.Tags...)
+	}
 	pt := func(h *head) bool {
 		return h.Regime == "PT" || (h.Regime == "" && h.Supplier != nil && h.Supplier.TaxID != nil && h.Supplier.TaxID.Country == "PT")
 	}
 	isPT := pt(&d.head)
 	if d.Doc != nil {
 		tags, addons = append(tags, d.Doc.Tags...), append(addons, d.Doc.Addons...)
+		if d.Doc.Tax != nil {
+			tags = append(tags, d.Doc.Tax.Tags...)
+		}
 		isPT = isPT || pt(d.Doc)
 	}
 	has := false
@@ -217,13 +230,23 @@ var signKey = dsig.NewES256Key()
 
 // Run is the C04 check.
 func Run(c *core.Ctx) int {
-	if os.Getenv("VERIF_C04_WORKER") != "" {
+	switch mode := os.Getenv("VERIF_C04_WORKER"); mode {
+	case "":
+	case "inputs", "probe":
+		return historyWorker(mode)
+	default:
 		return worker()
 	}
 	var cases []Case
 	var rc Case
+	var examples []Case
+	var addons []string
 	if c.ReplayCase(&rc) {
 		cases = []Case{rc}
+		if rc.Dirty != nil {
+			dirtyReplay(c, rc)
+			return c.Finish("replay of one dirty input", nil)
+		}
 	} else {
 		var invoices []Case
 		for _, f := range exampleFiles(c.Repo) {
@@ -232,12 +255,12 @@ func Run(c *core.Ctx) int {
 				continue
 			}
 			cases = append(cases, cs)
+			examples = append(examples, cs)
 			if !cs.Envelope && bytes.Contains(cs.Data, []byte("bill/invoice")) {
 				invoices = append(invoices, cs)
 			}
 		}
 		// every example invoice x every registered addon
-		var addons []string
 		for _, a := range tax.AllAddonDefs() {
 			addons = append(addons, string(a.Key))
 		}
@@ -262,6 +285,9 @@ func Run(c *core.Ctx) int {
 				cases = append(cases, Case{Name: cs.Name + "+" + a, Data: b})
 			}
 		}
+		// addon combinations and transplanted collections (history.go)
+		cases = append(cases, addonCombinations(invoices, addons)...)
+		cases = append(cases, transplants(invoices)...)
 		// the customer-rates family (customerrates.go): grid + random documents
 		for i, sp := range crSpecs(c.Rng, c.Pick(400, 20000)) {
 			sp := sp
@@ -311,10 +337,18 @@ func Run(c *core.Ctx) int {
 		}
 	}
 
+	if os.Getenv("VERIF_C04_ONLY") == "dirty" { // exploration of the dirty-input family alone
+		cases = nil
+	}
 	var forWorker [][]byte
 	var workerWant []string
 	var crQueue []crPending
+	var pool []Case
+	var poolFirst []string
 	for i, cs := range cases {
+		if len(cs.History) > 0 {
+			historyReplay(c, cs)
+		}
 		var env *gobl.Envelope
 		var err error
 		if pan := core.Protect(func() { env, err = build(cs) }); pan != "" {
@@ -333,8 +367,15 @@ func Run(c *core.Ctx) int {
 			kind = "random"
 		} else if cs.CR != nil {
 			kind = "customer-rates"
+		} else if strings.Contains(cs.Name, "@") {
+			kind = "example+addon-combination"
+		} else if strings.Contains(cs.Name, "&") {
+			kind = "example+transplant"
 		} else if strings.Contains(cs.Name, "+") {
 			kind = "example+addon"
+		}
+		if cs.Doc == nil && cs.CR == nil && rc.Data == nil {
+			pool, poolFirst = append(pool, cs), append(poolFirst, sig(env))
 		}
 		c.Count("kind:"+kind, 1)
 		c.Count("schema:"+env.Document.Schema.String(), 1)
@@ -404,7 +445,7 @@ func Run(c *core.Ctx) int {
 		// (2b) the same for the envelope once it is signed and carries header entries in an order that is
 		// not the sorted one (stamps are only allowed on signed envelopes): read, validate, digest, verify
 		// with and without the key, extract — the bytes written afterwards are the bytes read
-		if i%3 == 0 || cs.Doc == nil {
+		if i%3 == 0 || (cs.Doc == nil && !strings.ContainsAny(cs.Name, "@&")) {
 			e3 := new(gobl.Envelope)
 			if json.Unmarshal(b1, e3) == nil && e3.Validate() == nil {
 				var serr error
@@ -510,6 +551,12 @@ func Run(c *core.Ctx) int {
 	}
 	// the customer-rates family against Model/CustomerRates.lean
 	crCompare(c, crQueue)
+	// what a document calculates to does not depend on what was calculated before (history.go)
+	historyIndependence(c, pool, poolFirst)
+	// not-yet-normalised spellings of the examples (dirty.go)
+	if rc.Data == nil && rc.Doc == nil {
+		dirtyFamily(c, examples, addons)
+	}
 	// (4) another process, GOMAXPROCS=1
 	if len(forWorker) > 0 && !c.Search {
 		cmd := exec.Command(os.Args[0], "-root", c.Root, "-repo", c.Repo, "-model", c.ModelBin, "C04")
